@@ -142,19 +142,19 @@ def dump_fields(row) -> dict:
     }
 
 
-def make_row(fields: dict):
+def make_row(fields: dict, row_id="r1", from_="start"):
     from rpft.parsers.creation.flowrowmodel import Edge, FlowRowModel
 
-    return FlowRowModel(row_id="r1", edges=[Edge(from_="start")], **fields)
+    return FlowRowModel(row_id=row_id, edges=[Edge(from_=from_)], **fields)
 
 
-def real_to_fields(d: dict):
+def real_to_fields(d: dict, row_id="r1", from_="start"):
     """→ ({"ok": fields-json} | {"err": text}, FlowRowModel | None)"""
     from rpft.rapidpro.models.actions import Action
 
     try:
         a = Action.from_dict(copy.deepcopy(d))
-        row = make_row(a.get_row_model_fields())
+        row = make_row(a.get_row_model_fields(), row_id, from_)
     except OutsideDomain:
         raise
     except Exception as e:  # noqa: BLE001
@@ -196,6 +196,32 @@ def real_of_fields(row):
             c["uuid"] = cont.uuid_dict.flow_dict.get(c["name"]) or c["uuid"]
         out.append(c)
     return {"ok": out}
+
+
+def strip_row(row):
+    """the row as a --strip_uuids sheet carries it (`to_row_data_sheet`: obj_id, _nodeId and
+    wa_template.uuid columns excluded → defaults on reading)"""
+    r = row.copy(deep=True)
+    r.obj_id = ""
+    r.node_uuid = ""
+    r.wa_template.uuid = ""
+    return r
+
+
+def strings_of(x):
+    if isinstance(x, str):
+        yield x
+    elif isinstance(x, dict):
+        for v in x.values():
+            yield from strings_of(v)
+    elif isinstance(x, list):
+        for v in x:
+            yield from strings_of(v)
+
+
+def cell_safe(c: dict) -> bool:
+    """C07's representable domain for the texts of a canonical action: trimmed, template-free"""
+    return all(s.strip() == s and "{" not in s for s in strings_of(c))
 
 
 def router_row_extras(fields: dict) -> dict:
@@ -241,6 +267,10 @@ METHODS_BAD = ["PATCH", "get", "", "TRACE", " POST"]
 AMOUNT_TEXTS = ["5", "20.5", "2.0", "1e5", "1E+5", "1e", ".5", "5.", ".", "1_000", "1__0", "_1", "1_", " 7 ", "+3", "-4", "--4", "inf", "-Infinity",
                 "nan", "NaN", "infinit", "0x10", "True", "", "abc", "1.5.2", "1_0.0_1", "1._5", "1e1_0", "1e_1", "\t8\n", "12abc", "+", "-", "+.5", "1.e3", ".e3",
                 "9" * 30, "-0", "00012", "1e-7", "3.", "4"]
+
+
+AMOUNT_GOOD = ["5", "20.5", "2.0", "1e5", "1E+5", ".5", "5.", "1_000", " 7 ", "+3", "-4", "inf", "-Infinity", "nan", "NaN", "1_0.0_1", "1e1_0", "\t8\n", "+.5", "1.e3",
+               "9" * 30, "-0", "00012", "1e-7", "0.30000000000000004"]
 
 
 def gen_uuid(rng):
@@ -459,7 +489,8 @@ def gen_row_fields(rng: random.Random) -> dict:
             f[key] = gen()
 
     txt = lambda: rng.choice(["", "", " ", gen_text(rng, "t"), gen_long(rng, rng.choice([640, 641]))])  # noqa: E731
-    name = lambda: rng.choice(NAMES_OK + NAMES_BAD)  # noqa: E731
+    name = lambda: rng.choice(NAMES_OK + NAMES_OK + NAMES_BAD)  # noqa: E731
+    good = rng.random() < 0.6  # mostly valid webhook / airtime rows
     relevant = {
         "send_message": ["mainarg_message_text", "choices", "image", "audio", "video", "attachments", "wa_template"],
         "save_value": ["mainarg_value", "save_name"], "save_flow_result": ["mainarg_value", "save_name", "result_category"],
@@ -478,12 +509,13 @@ def gen_row_fields(rng: random.Random) -> dict:
         "mainarg_groups": lambda: [rng.choice(["G1", "G 2", "", "é|;"]) for _ in range(rng.choice([0, 1, 1, 2]))],
         "obj_id": lambda: rng.choice(["", "id-1", " "]), "urn_scheme": lambda: rng.choice(["", "tel", "whatsapp", " "]),
         "mainarg_flow_name": lambda: rng.choice(["", "child", " ", "é|;"]),
-        "webhook": lambda: {"url": rng.choice(["", "http://x", " "]), "method": rng.choice(METHODS + METHODS_BAD), "body": rng.choice(["", "b", "é|;"]),
-                            "headers": gen_items(rng, ["v", "", "text/plain"])},
-        "mainarg_dict": lambda: gen_items(rng, AMOUNT_TEXTS),
+        "webhook": lambda: {"url": rng.choice(["http://x", "u"] if good else ["", "http://x", " "]), "method": rng.choice(METHODS + [""] if good else METHODS + METHODS_BAD),
+                            "body": rng.choice(["", "b", "é|;"]),
+                            "headers": [[k, "v"] for k in rng.sample(["A", "B", "é"], rng.choice([0, 1, 3]))] if good else gen_items(rng, ["v", "", "text/plain"])},
+        "mainarg_dict": lambda: [[k, rng.choice(AMOUNT_GOOD)] for k in rng.sample(["USD", "KES", "é", ""], rng.choice([1, 2, 4]))] if good else gen_items(rng, AMOUNT_TEXTS),
     }
     for key in keys:
-        maybe(0.85, key, gens[key])
+        maybe(0.97 if good else 0.8, key, gens[key])
     # a stray field of another row type (ignored by the dispatch)
     if rng.random() < 0.15:
         stray = rng.choice(list(gens))
@@ -493,3 +525,303 @@ def gen_row_fields(rng: random.Random) -> dict:
 
 def dumps(x):
     return json.dumps(x, ensure_ascii=False, sort_keys=True)
+
+
+# ------------------------------------------------------------------ the check's streams (called from props/c04.py)
+
+# the Lean `needs_…` witnesses of Props/C04.lean as RapidPro JSON: (theorem, action, what the REAL code must show)
+#   lossy = comes back, without error, as a different action;  export = export raises;  compile = compile step fails
+_U = "00000000-0000-4000-a000-000000000000"
+WITNESSES = [
+    ("needs_text_nonempty", {"type": "send_msg", "uuid": _U, "text": "", "attachments": [], "quick_replies": []}, "compile"),
+    ("needs_no_empty_attachment", {"type": "send_msg", "uuid": _U, "text": "hi", "attachments": ["", "geo:1"], "quick_replies": []}, "lossy"),
+    ("needs_no_empty_quick_reply", {"type": "send_msg", "uuid": _U, "text": "hi", "attachments": [], "quick_replies": ["a", "", "b"]}, "lossy"),
+    ("needs_media_trimmed", {"type": "send_msg", "uuid": _U, "text": "hi", "attachments": ["image: http://x "], "quick_replies": []}, "lossy"),
+    ("needs_media_nonempty", {"type": "send_msg", "uuid": _U, "text": "hi", "attachments": ["audio:"], "quick_replies": []}, "lossy"),
+    ("needs_no_all_urns", {"type": "send_msg", "uuid": _U, "text": "hi", "attachments": [], "quick_replies": [], "all_urns": True}, "lossy"),
+    ("needs_no_topic", {"type": "send_msg", "uuid": _U, "text": "hi", "attachments": [], "quick_replies": [], "topic": "event"}, "lossy"),
+    ("needs_template_name", {"type": "send_msg", "uuid": _U, "text": "hi", "attachments": [], "quick_replies": [],
+                             "templating": {"uuid": _U, "template": {"uuid": "t-1", "name": ""}, "variables": ["v"]}}, "lossy"),
+    ("needs_generated_key", {"type": "set_contact_field", "uuid": _U, "field": {"key": "fav_food", "name": "Fav-Food"}, "value": "rice"}, "lossy"),
+    ("needs_field_key", {"type": "set_contact_field", "uuid": _U, "field": {"key": "123", "name": "123"}, "value": "v"}, "compile"),
+    ("needs_field_key", {"type": "set_contact_field", "uuid": _U, "field": {"key": "x" * 37, "name": "x" * 37}, "value": "v"}, "compile"),
+    ("needs_no_field_type", {"type": "set_contact_field", "uuid": _U, "field": {"key": "age", "name": "Age", "type": "number"}, "value": "3"}, "lossy"),
+    ("needs_value_limit", {"type": "set_contact_field", "uuid": _U, "field": {"key": "age", "name": "Age"}, "value": "v" * 641}, "compile"),
+    ("needs_value_limit", {"type": "set_run_result", "uuid": _U, "name": "r", "value": "v" * 641}, "compile"),
+    ("needs_prop_value", {"type": "set_contact_name", "uuid": _U, "name": ""}, "compile"),
+    ("needs_no_channel_ref", {"type": "set_contact_channel", "uuid": _U, "channel": {"uuid": "c-1", "name": "Channel"}}, "export"),
+    ("needs_a_group", {"type": "add_contact_groups", "uuid": _U, "groups": []}, "export"),
+    ("needs_a_group", {"type": "remove_contact_groups", "uuid": _U, "groups": [], "all_groups": True}, "export"),
+    ("needs_one_group", {"type": "add_contact_groups", "uuid": _U, "groups": [{"name": "A", "uuid": "g-a"}, {"name": "B", "uuid": "g-b"}]}, "lossy"),
+    ("needs_group_uuid", {"type": "add_contact_groups", "uuid": _U, "groups": [{"name": "A", "uuid": ""}]}, "lossy"),
+    ("needs_no_group_attrs", {"type": "remove_contact_groups", "uuid": _U, "groups": [{"name": "A", "uuid": None, "query": "age > 3"}]}, "lossy"),
+    ("needs_no_all_groups", {"type": "remove_contact_groups", "uuid": _U, "groups": [{"name": "A", "uuid": None}], "all_groups": True}, "lossy"),
+    ("needs_flow_name_and_uuid", {"type": "enter_flow", "uuid": _U, "flow": {"name": "", "uuid": "f-1"}}, "compile"),
+    ("needs_flow_name_and_uuid", {"type": "enter_flow", "uuid": _U, "flow": {"name": "child", "uuid": ""}}, "lossy"),
+    ("needs_webhook_fields", {"type": "call_webhook", "uuid": _U, "result_name": "wh", "url": "", "method": "GET", "body": "", "headers": {}}, "compile"),
+    ("needs_webhook_fields", {"type": "call_webhook", "uuid": _U, "result_name": "", "url": "http://x", "method": "GET", "body": "", "headers": {}}, "compile"),
+    ("needs_webhook_fields", {"type": "call_webhook", "uuid": _U, "result_name": "wh", "url": "http://x", "method": "PATCH", "body": "", "headers": {}}, "compile"),
+    ("needs_webhook_fields", {"type": "call_webhook", "uuid": _U, "result_name": "wh", "url": "http://x", "method": "", "body": "", "headers": {}}, "lossy"),
+    ("needs_webhook_fields", {"type": "call_webhook", "uuid": _U, "result_name": "123", "url": "http://x", "method": "GET", "body": "", "headers": {}}, "compile"),
+    ("needs_airtime_fields", {"type": "transfer_airtime", "uuid": _U, "amounts": {}, "result_name": "air"}, "compile"),
+    ("needs_airtime_fields", {"type": "transfer_airtime", "uuid": _U, "amounts": {"USD": 5}, "result_name": ""}, "compile"),
+    ("needs_airtime_fields", {"type": "transfer_airtime", "uuid": _U, "amounts": {"USD": 5}, "result_name": "1 2"}, "compile"),
+    ("needs_scheme", {"type": "add_contact_urn", "uuid": _U, "path": "+1", "scheme": ""}, "lossy"),
+] + [("needs_supported_type", {"type": t, "uuid": _U, "text": "x"}, "export") for t in PASS_THROUGH]
+# needs_distinct_keys / needs_float_text have no real counterpart: a JSON object has distinct keys, and a float's text is its repr
+
+
+def _same(real: dict, model: dict) -> bool:
+    return (("ok" in real) == ("ok" in model)) and ("err" in real or real["ok"] == model["ok"])
+
+
+def _norm_back(m: dict) -> dict:
+    return {"ok": [norm_model_action(x) for x in m["ok"]]} if "ok" in m else m
+
+
+def real_roundtrip(d: dict):
+    """the direct oracle's observable: REAL export → REAL compile of one action.
+    → ("export", err) | ("compile", err) | ("ok", [canonical actions]), fields-json | None, row | None"""
+    rf, row = real_to_fields(d)
+    if row is None:
+        return ("export", rf["err"]), None, None
+    rb = real_of_fields(row)
+    if "err" in rb:
+        return ("compile", rb["err"]), rf["ok"], row
+    return ("ok", rb["ok"]), rf["ok"], row
+
+
+def gen_stream_action(rng):
+    r = rng.random()
+    a = gen_expressible(rng)
+    if r < 0.62:
+        return a, "expressible"
+    if r < 0.95:
+        return mutate_non_expressible(rng, a)
+    return gen_unsupported(rng), "unsupported"
+
+
+def worker(args):
+    """one shard of the codec streams.  Returns plain data (runs in a forked process)."""
+    from . import core
+
+    seed, n_act, n_rows, oracle_only = args
+    rng = random.Random(seed)
+    drv = core.Driver()
+    stats, ties, viol, keys = {}, [], [], []
+    sample = None
+
+    def bump(k, v=1):
+        stats[k] = stats.get(k, 0) + v
+
+    # ---- stream 1: actions
+    acts = [gen_stream_action(rng) for _ in range(n_act)]
+    canons = [canon_action(a) for a, _ in acts]
+    ans = drv.results([{"op": "act.to_fields", "a": c} for c in canons])
+    batch = []  # expressible, cell-safe rows waiting for a shared sheet
+    for (a, tag), c, m in zip(acts, canons, ans):
+        if "__error__" in m:
+            raise core.Infra(f"driver: {m} on {c}")
+        keys.append(dumps(c))
+        kind = c["type"]
+        expressible = bool(m["expressible"])
+        bump(f"act.{kind}.{'expressible' if expressible else 'outside'}")
+        if tag != "expressible":
+            bump("act.clause." + tag)
+        (res, val), fields, row = real_roundtrip(a)
+        # B: tie, export side
+        rf = {"ok": fields} if fields is not None else {"err": val}
+        if not oracle_only and not _same(rf, m["fields"]):
+            ties.append({"what": "act.to_fields: model and real get_row_model_fields disagree", "action": a, "real": rf, "model": m["fields"]})
+        # B: tie, compile side on the exported fields
+        if not oracle_only and row is not None:
+            rb = {"ok": val} if res == "ok" else {"err": val}
+            if not _same(rb, _norm_back(m["back"])):
+                ties.append({"what": "act.of_fields∘to_fields: model and real _get_row_action/_get_row_node disagree", "action": a, "real": rb, "model": m["back"]})
+        if not expressible:
+            # not an oracle: how the real code treats what lies outside `Expressible`
+            bump("outside." + ("roundtrips_anyway" if (res == "ok" and val == [c]) else "lossy" if res == "ok" else "loud_" + res))
+            if res == "ok" and val == [c]:
+                bump("outside.roundtrips_anyway." + tag)
+            continue
+        # C: the property's own statement on the real code
+        if sample is None:
+            sample = {"action": a, "row_fields": {k: v for k, v in (fields or {}).items() if v not in ("", [], {"name": "", "uuid": "", "variables": []}, {"url": "", "method": "", "headers": [], "body": ""})}}
+        if not (res == "ok" and val == [c]):
+            viol.append({"what": "an action the sheet format expresses does not come back from its own row (export → compile)", "action": a,
+                         "row_fields": fields, "comes_back_as": val if res == "ok" else f"{res} error: {val}"})
+            continue
+        bump("oracle.keep.ok")
+        sb = real_of_fields(strip_row(row))
+        if sb.get("ok") != [strip_expected(c)]:
+            viol.append({"what": "with --strip_uuids (obj_id / wa_template.uuid columns dropped) the action's content does not come back", "action": a,
+                         "comes_back_as": sb})
+            continue
+        bump("oracle.strip.ok")
+        # C through the REAL cell layer (RowDataSheet → table → SheetParser), texts in C07's domain;
+        # away from the triggers of the open findings F-C04-d (headers), F-C04-f (body + message_text column), F-C04-i (channel)
+        if not cell_safe(c):
+            bump("cells.skipped_text_outside_cell_domain")
+            continue
+        if kind == "call_webhook" and c["headers"]:
+            bump("cells.skipped_F-C04-d_trigger")
+            continue
+        if kind == "set_contact_prop" and c["prop"] == "channel":
+            bump("cells.skipped_F-C04-i_trigger")
+            continue
+        for strip in (False, True):
+            back, headers = through_cells([row], strip)
+            got = real_of_fields(back[0]) if not isinstance(back[0], str) else {"err": back[0]}
+            want = strip_expected(c) if strip else c
+            if got.get("ok") != [want]:
+                viol.append({"what": "an action the sheet format expresses does not come back from the exported sheet row (real RowDataSheet → real row parser → compile)",
+                             "action": a, "strip_uuids": strip, "headers": headers, "comes_back_as": got})
+                break
+        else:
+            bump("oracle.cells.single_row.ok")
+        tv = [len(x["templating"]["variables"]) for _, x in batch if x.get("templating")]
+        if kind == "call_webhook" and c["body"]:
+            bump("cells.shared.skipped_F-C04-f_trigger")
+        elif c.get("templating") and tv and tv[0] != len(c["templating"]["variables"]):
+            bump("cells.shared.skipped_F-C04-j_trigger")
+        else:
+            batch.append((a, c))
+        if len(batch) >= 6:
+            _check_batch(batch, viol, bump)
+            batch = []
+    if batch:
+        _check_batch(batch, viol, bump)
+
+    # ---- stream 2: row fields as a sheet author writes them (valid and malformed) — tie of the compile side alone
+    if not oracle_only:
+        fs = [gen_row_fields(rng) for _ in range(n_rows)]
+        ans = drv.results([{"op": "act.of_fields", "f": f} for f in fs])
+        for f, m in zip(fs, ans):
+            if "__error__" in m:
+                raise core.Infra(f"driver: {m} on {f}")
+            try:
+                row = make_row(router_row_extras(f))
+            except Exception:  # noqa: BLE001 — not a valid FlowRowModel
+                bump("row.invalid_model")
+                continue
+            rb = real_of_fields(row)
+            bump(f"row.{f['type'] if f['type'] in ROW_TYPES else 'other_type'}.{'ok' if 'ok' in rb else 'rejected'}")
+            if not _same(rb, _norm_back(m)):
+                ties.append({"what": "act.of_fields: model and real _get_row_action/_get_row_node disagree", "row_fields": f, "real": rb, "model": m})
+    return {"stats": stats, "ties": ties[:20], "n_ties": len(ties), "viol": viol[:10], "keys": keys, "sample": sample}
+
+
+def _check_batch(batch, viol, bump):
+    """several actions as the rows of ONE exported sheet (shared, padded columns)"""
+    rows = []
+    for i, (a, _) in enumerate(batch):
+        _, row = real_to_fields(a, row_id=f"r{i + 1}", from_="start" if i == 0 else f"r{i}")
+        rows.append(row)
+    back, headers = through_cells(rows, False)
+    for (a, c), b in zip(batch, back):
+        got = real_of_fields(b) if not isinstance(b, str) else {"err": b}
+        if got.get("ok") != [c]:
+            viol.append({"what": "an action does not come back from its row of an exported sheet shared with other actions (padded columns)",
+                         "action": a, "sheet_actions": [x for x, _ in batch], "headers": headers, "comes_back_as": got})
+            return
+    bump("oracle.cells.shared_sheet.ok", len(batch))
+
+
+# deterministic known-finding streams: (finding id, text, action(s), detector)
+KNOWN_G = {"type": "add_contact_groups", "uuid": _U, "groups": [{"name": "Grp A", "uuid": "11111111-1111-4111-a111-111111111111"},
+                                                                 {"name": "Grp B", "uuid": "22222222-2222-4222-a222-222222222222"}]}
+KNOWN_H = {"type": "set_contact_field", "uuid": _U, "field": {"key": "fav_food", "name": "Fav-Food"}, "value": "rice"}
+KNOWN_I = {"type": "set_contact_channel", "uuid": _U, "channel": "Channel 1"}
+KNOWN_D = {"type": "call_webhook", "uuid": _U, "result_name": "wh", "url": "http://example.com/h", "method": "GET", "body": "", "headers": {"Accept": "text/plain"}}
+KNOWN_F = [{"type": "send_msg", "uuid": _U, "text": "hi", "attachments": [], "quick_replies": []},
+           {"type": "call_webhook", "uuid": _U, "result_name": "wh", "url": "http://example.com/h", "method": "POST", "body": "payload", "headers": {}}]
+
+
+KNOWN_J = [{"type": "send_msg", "uuid": _U, "text": "first", "attachments": [], "quick_replies": [],
+            "templating": {"uuid": _U, "template": {"uuid": "t-1", "name": "promo"}, "variables": ["x", "y", "z"]}},
+           {"type": "send_msg", "uuid": _U, "text": "second", "attachments": [], "quick_replies": [],
+            "templating": {"uuid": _U, "template": {"uuid": "t-1", "name": "promo"}, "variables": ["a"]}}]
+
+
+def known_streams(ck):
+    """each open finding of the action codec: trigger present AND the recorded discrepancy pattern
+    (AND the counterfactual without the trigger comes back intact)"""
+    # F-C04-g: more than one group
+    (res, val), fields, _ = real_roundtrip(KNOWN_G)
+    c = canon_action(KNOWN_G)
+    one = dict(KNOWN_G, groups=KNOWN_G["groups"][:1])
+    if res == "ok" and val == [dict(c, groups=c["groups"][:1])] and fields["mainarg_groups"] == ["Grp A", "Grp B"] \
+            and real_roundtrip(one)[0] == ("ok", [canon_action(one)]):
+        ck.known("F-C04-g", "an add/remove-groups action with several groups is exported with every group name but compiled from the first only: the other groups are gone",
+                 {"action": KNOWN_G, "row_fields.mainarg_groups": fields["mainarg_groups"], "comes_back_as": val})
+    elif not (res == "ok" and val == [c]):
+        ck.violation("multi-group action: neither intact nor the recorded pattern of F-C04-g", {"action": KNOWN_G, "comes_back_as": val})
+    # F-C04-h: field key that is not the key generated from the name
+    (res, val), fields, _ = real_roundtrip(KNOWN_H)
+    c = canon_action(KNOWN_H)
+    twin = dict(KNOWN_H, field={"key": "fav-food", "name": "Fav-Food"})
+    if res == "ok" and val == [dict(c, key="fav-food")] and real_roundtrip(twin)[0] == ("ok", [canon_action(twin)]):
+        ck.known("F-C04-h", "a set_contact_field action whose field key is not the key the toolkit derives from the field name comes back with the derived key: it sets another field",
+                 {"action": KNOWN_H, "comes_back_as": val})
+    elif not (res == "ok" and val == [c]):
+        ck.violation("set_contact_field with its own key: neither intact nor the recorded pattern of F-C04-h", {"action": KNOWN_H, "comes_back_as": val})
+    # through the real cell layer
+    # F-C04-i: set_contact_channel row exported under message_text, which has no main-argument mapping for that row type
+    (res, val), _, row = real_roundtrip(KNOWN_I)
+    if res == "ok" and val == [canon_action(KNOWN_I)]:
+        back, headers = through_cells([row])
+        if isinstance(back[0], str) and "KeyError" in back[0] and "set_contact_channel" in back[0] and "message_text" in headers:
+            ck.known("F-C04-i", "a set_contact_channel action is exported under the message_text column, which the row parser cannot map back for that row type (KeyError): the exported sheet does not compile",
+                     {"action": KNOWN_I, "headers": headers, "error": back[0]})
+        elif isinstance(back[0], str) or real_of_fields(back[0]).get("ok") != [canon_action(KNOWN_I)]:
+            ck.violation("set_contact_channel through the sheet: neither intact nor the recorded pattern of F-C04-i", {"action": KNOWN_I, "got": str(back[0])[:300]})
+    # F-C04-d at row level: headers spread as webhook.headers.i.j
+    (res, val), _, row = real_roundtrip(KNOWN_D)
+    if res == "ok" and val == [canon_action(KNOWN_D)]:
+        back, headers = through_cells([row])
+        if isinstance(back[0], str) and "AssertionError" in back[0] and any(h.startswith("webhook.headers.") for h in headers):
+            ck.known("F-C04-d", "a webhook with headers is exported as webhook.headers.i.j columns that the row parser cannot read back", {"action": KNOWN_D, "headers": headers, "error": back[0]})
+        elif isinstance(back[0], str) or real_of_fields(back[0]).get("ok") != [canon_action(KNOWN_D)]:
+            ck.violation("webhook with headers through the sheet: neither intact nor the recorded pattern of F-C04-d", {"action": KNOWN_D, "got": str(back[0])[:300]})
+    # F-C04-f at row level: body next to a message_text column
+    rows = [real_to_fields(a, row_id=f"r{i + 1}", from_="start" if i == 0 else f"r{i}")[1] for i, a in enumerate(KNOWN_F)]
+    back, headers = through_cells(rows)
+    alone, _ = through_cells([rows[1]])
+    cw = canon_action(KNOWN_F[1])
+    got = real_of_fields(back[1]) if not isinstance(back[1], str) else {"err": back[1]}
+    got_alone = real_of_fields(alone[0]) if not isinstance(alone[0], str) else {"err": alone[0]}
+    if got.get("ok") == [dict(cw, body="")] and got_alone.get("ok") == [cw] and "message_text" in headers:
+        ck.known("F-C04-f", "a webhook body is lost when the sheet also has a message_text column (blank message_text cell overwrites webhook.body)",
+                 {"sheet_actions": KNOWN_F, "headers": headers, "comes_back_as": got})
+    elif got.get("ok") != [cw]:
+        ck.violation("webhook body in a shared sheet: neither intact nor the recorded pattern of F-C04-f", {"sheet_actions": KNOWN_F, "comes_back_as": got})
+
+
+    # F-C04-j at row level: templating variables padded to the longest list of the sheet
+    rows = [real_to_fields(a, row_id=f"r{i + 1}", from_="start" if i == 0 else f"r{i}")[1] for i, a in enumerate(KNOWN_J)]
+    back, headers = through_cells(rows)
+    alone, _ = through_cells([rows[1]])
+    cj = canon_action(KNOWN_J[1])
+    got = real_of_fields(back[1]) if not isinstance(back[1], str) else {"err": back[1]}
+    got_alone = real_of_fields(alone[0]) if not isinstance(alone[0], str) else {"err": alone[0]}
+    padded = copy.deepcopy(cj)
+    padded["templating"]["variables"] = ["a", "", ""]
+    if got.get("ok") == [padded] and got_alone.get("ok") == [cj] and "wa_template.variables.3" in headers:
+        ck.known("F-C04-j", "the variables of a WhatsApp templating come back padded with empty strings up to the longest variables list of the sheet (blank wa_template.variables.k cells read as entries)",
+                 {"sheet_actions": KNOWN_J, "headers": headers, "comes_back_as": got})
+    elif got.get("ok") != [cj]:
+        ck.violation("templating variables in a shared sheet: neither intact nor the recorded pattern of F-C04-j", {"sheet_actions": KNOWN_J, "comes_back_as": got})
+
+
+def witness_stream(ck):
+    """the negative witnesses of the Lean theorems, replayed on the real code"""
+    for thm, a, want in WITNESSES:
+        (res, val), _, _ = real_roundtrip(a)
+        try:
+            c = canon_action(a)
+        except OutsideDomain:
+            c = None
+        got = "lossy" if (res == "ok" and val != [c]) else "intact" if res == "ok" else res
+        ck.count(f"witness.{want}.{'reproduced' if got == want else 'NOT_reproduced'}")
+        if got != want:
+            ck.tie_break(f"witness of {thm} behaves differently on the real code: expected {want}, got {got}", {"action": a, "real": val})
